@@ -51,4 +51,9 @@ CHECKS = {
   text='On a one-step controller with 2-3 levels the harness (1) iterates the fine level to its collocation solution, runs IT_DOWN/IT_COARSE/IT_UP through controller.pfasst and requires the fine values (and f) to stay put and every coarse level to sit on its own fixed point; '
        '(2) for arbitrary fine iterates checks right after each restriction that the coarse defect u0+dt*Q*F(U)+tau-U equals the restricted fine defect (incl. inherited tau on three levels). Linear (forced fixtures, heat, advection, FFT advection-diffusion IMEX) and nonlinear (van der Pol, logistic, periodic Allen-Cahn) problems.',
   note='The restricted defect is formed with the step\'s own transfer operators (their exactness is C11). Tolerance 1e-10*scale + 1e4*measured fine defect. The explicit multigrid-in-time iteration-matrix clause of the statement is not yet built (planned: dense two-level map).'),
+ 'C03': dict(
+  technique='property-based testing: recorder hook recomputing the collocation defect at every callback of generated real runs; exhaustive and generated scripted residual tables for the stopping rule',
+  text='Real runs (implicit, IMEX, IMEX-mass sweepers; 4 residual types; 1-2 levels; 1-4 parallel steps; restol reached at iteration 0,1,..,never): at each post_sweep/post_iteration/post_step the defect is recomputed from the node values held (f re-evaluated) and compared with status.residual and the logged stats; '
+       'stopping soundness, iter <= maxiter, iter == callbacks == logged niter. Scripted residual tables: all {below,above}^(K+1) sequences for K<=3 (quick)/4 x 1-3 steps x coupling modes, all pairs across two consecutive blocks, generated long non-monotone multi-block tables.',
+  note='At iteration 0 the identity is asserted only for the spread guess (copy/zero guesses store f(u0,t0)/0 by construction). Known finding F3b (zero-sweep finish at iteration 0, same root cause as F3); F9 (mass sweeper ignored residual_type) fixed.'),
 }
